@@ -298,7 +298,7 @@ func (g *Gen) applyContractX(st *State, c *Contract, key string, names []string,
 		ord := g.preCallOrd[short]
 		g.preCallOrd[short] = ord + 1
 		for _, cl := range g.C.CallAsserts {
-			if cl.CallOrd != ord || !(short == cl.Callee || strings.HasSuffix(short, "."+cl.Callee) || strings.HasSuffix(short, "/"+cl.Callee)) {
+			if cl.CallOrd != ord || !(short == cl.Callee || strings.HasSuffix(short, "."+cl.Callee) || strings.HasSuffix(short, "/"+cl.Callee) || (cl.Callee == "$dyn" && strings.Contains(short, "$callback:"))) {
 				continue
 			}
 			sca := g.specCtxVars(st, g.entry, vars)
